@@ -59,7 +59,7 @@ def decode_start(p):
 
 def strategy():
     # num: how the coroutine writes its waits - 0/1 plain int/float, 2 fractions.Fraction, 3 a float subclass
-    co = st.tuples(st.integers(0, 2 * 5 * 10 ** 5 - 1), st.integers(0, 1199)).map(
+    co = st.tuples(worldops.packed(2 * 5 * 10 ** 5), worldops.packed(1200)).map(
         lambda t: {'script': decode_script(t[0]), 'start': decode_start(t[1] % 300), 'num': t[1] // 300})
     return st.fixed_dictionaries({
         'cos': st.lists(co, min_size=1, max_size=5),
